@@ -2,7 +2,7 @@
 # C15 — model of DIP branching (`@case` / `@else` / `@end`)
 
 Mirrors, statement by statement, the code of `/repo/src/scinumtools/dip`
-(after the `fix:` commits bc26006, d6c5e92, 62d4beb, f476bb7, 790a797):
+(after the `fix:` commits bc26006, d6c5e92, 62d4beb, f476bb7, 790a797, c1e6ecd):
 
 * `lists/list_hierarchy.py`  `HierarchyList.register`        → `popGE`, `register`, `fullName`
 * `nodes/node_case.py`       `CaseNode.parse`                → the `@N` numbering in `step`
